@@ -358,3 +358,26 @@ mut('c18-iter-no-reset', ['C18'], '__iter__ does not restart', [(DT, "    def __
 mut('c18-next-le', ['C18'], '__next__ yields one batch past the end', [(DT, "if self.step < self.__len__():", "if self.step <= self.__len__():")], rules=['C18.BATCH'])
 mut('c18-onehot-unsorted', ['C18'], 'label order taken from first occurrence', [(DT, "uniques = list(np.unique(y))", "uniques = list(dict.fromkeys(list(y)))")], rules=['C18.ONEHOT'])
 mut('c18-twin-end-from-start', ['C18'], 'end written as start + batch_size', [(DT, "end = (idx*self.batach_size) + self.batach_size", "end = start + self.batach_size")], expect='silent')
+
+# ------------------------------------------------------------------------------------------------ C19
+mut('c19-dropout-default-rng', ['C19', 'C13'], 'Dropout draws its mask from an unseeded Generator', [(LY, "random_data = np.random.rand(*x.shape)", "random_data = np.random.default_rng().random(x.shape)")], rules=['C19.SOURCE', 'C13'])
+mut('c19-uniform-randomstate', ['C19', 'C15'], 'uniform_ uses a private RandomState', [(IN, "tensor.data = np.random.uniform(a, b, tensor.shape).astype(tensor.dtype)", "tensor.data = np.random.RandomState().uniform(a, b, tensor.shape).astype(tensor.dtype)")], rules=['C19.SOURCE', 'C15'])
+mut('c19-seed-numpy-only', ['C19'], 'manual_seed no longer seeds Python\'s random', [(U, "    np.random.seed(seed)\n    random.seed(seed)", "    np.random.seed(seed)")], rules=['C19.SEED'])
+mut('c19-seed-constant', ['C19'], 'manual_seed seeds NumPy with a constant', [(U, "np.random.seed(seed)", "np.random.seed(0)")], rules=['C19.SEED'])
+mut('c19-sweep-over-visited-set', ['C19', 'C03'], 'backward sweeps the visited set instead of the order list', [(T, "enumerate(reversed(ordered_nodes))", "enumerate(visited_nodes)")], rules=['C19.ORDER', 'C03.TOPO'], accept_incomplete=True)
+mut('c19-split-python-time-seed', ['C19', 'C18'], 'split shuffle reseeds from the clock', [(DT, "            np.random.shuffle(indices)", "            import time; np.random.seed(int(time.time())); np.random.shuffle(indices)")], rules=['C19.SOURCE', 'C18'])
+mut('c19-id-ordering', ['C19'], 'parameters() sorted by object address', [(M, "        return unique_params", "        return sorted(unique_params, key=lambda p: id(p))")], rules=['C19.NOADDR'])
+mut('c19-parameters-via-set', ['C19', 'C12'], 'parameters() de-duplicated through a set of tensors', [(M, "        return unique_params", "        return list(set(unique_params))")], rules=['C19.ORDER', 'C12'])
+
+# ------------------------------------------------------------------------------------------------ C20
+mut('c20-step-before-backward', ['C20'], 'optimizer.step() before backward()', [(TR, "            train_loss.backward()\n            self.optimizer.step()", "            self.optimizer.step()\n            train_loss.backward()")], rules=['C20.STEP'])
+mut('c20-zero-grad-after-backward', ['C20'], 'zero_grad() after backward() (every step uses zero gradients)', [(TR, "            self.optimizer.zero_grad()\n            train_loss.backward()", "            train_loss.backward()\n            self.optimizer.zero_grad()")], rules=['C20.STEP'])
+mut('c20-step-every-other-batch', ['C20'], 'step only on even batches', [(TR, "            self.optimizer.step()\n", "            if i % 2 == 0: self.optimizer.step()\n")], rules=['C20.STEP'])
+mut('c20-validation-outside-no-grad', ['C20'], 'validation loop outside no_grad', [(TR, "        with self.engine.no_grad():\n            for i, data in enumerate(validation_loader):", "        if True:\n            for i, data in enumerate(validation_loader):")], rules=['C20.EVAL'])
+mut('c20-validate-no-eval', ['C20'], '__validate does not switch to eval mode', [(TR, "        \"\"\" Validate model with validation data \"\"\"\n        self.model.eval()\n", "        \"\"\" Validate model with validation data \"\"\"\n")], rules=['C20.EVAL'])
+mut('c20-train-mode-missing', ['C20'], 'no model.train() before the batch loop (second epoch trains in eval mode)', [(TR, "        \"\"\" Train model for one epoch \"\"\"\n        self.model.train()\n", "        \"\"\" Train model for one epoch \"\"\"\n"), (TR, "            ############ TRAIN ############\n            self.model.train()\n", "            ############ TRAIN ############\n")], rules=['C20.TRAINMODE'])
+mut('c20-val-prefix-missing', ['C20'], 'validation metrics recorded without the val_ prefix', [(TR, "self.evaluator.compute(prefix='val')", "self.evaluator.compute()")], rules=['C20.HISTORY'])
+mut('c20-loss-sum-not-mean', ['C20'], 'epoch loss is the sum of batch losses', [(TR, "        train_loss = epoch_train_loss / (i + 1)", "        train_loss = epoch_train_loss / 1")], rules=['C20.HISTORY'])
+mut('c20-history-only-last-epoch', ['C20'], 'history re-created every epoch', [(TR, "            ############ TRAIN ############\n", "            ############ TRAIN ############\n            self.history = {}\n")], rules=['C20.HISTORY'], accept_incomplete=True)
+mut('c20-evaluator-default-mode', ['C20'], 'unknown evaluator mode treated as categorical', [(TR, "        elif self.mode == self.CATEGORICAL:\n            y_pred = np.argmax(outputs_numpy, axis=1)\n            y_true = np.argmax(labels_numpy, axis=1)\n        else:\n            raise RuntimeError(f\"Evaluator: mode '{self.mode}' is not valid\")", "        else:\n            y_pred = np.argmax(outputs_numpy, axis=1)\n            y_true = np.argmax(labels_numpy, axis=1)")], rules=['C20.EVALUATOR'])
+mut('c20-train-twice-per-epoch', ['C20'], 'warm-up: first epoch trains twice', [(TR, "            train_metrics = self.__train(train_loader, kbar)\n", "            if epoch == 0: self.__train(train_loader, kbar)\n            train_metrics = self.__train(train_loader, kbar)\n")], rules=['C20.STEP'])
